@@ -1,6 +1,7 @@
 package core
 
 import (
+	"encoding/json"
 	"fmt"
 	"os"
 	"runtime"
@@ -215,4 +216,70 @@ func RunOnce(label string, cfg vsched.Config, body func()) *vsched.Sched {
 	s := vsched.Run(cfg, body)
 	wd.Stop()
 	return s
+}
+
+// ExploreSlow runs the scenario once per thread of the default execution with
+// that thread demoted ("slow": it runs only when nothing else can), optionally
+// starting the demotion at each of the given step offsets. One high-level
+// decision replaces the many low-level deviations a slow goroutine would need;
+// the enumeration is exhaustive over (thread, offset).
+func (c *Ctx) ExploreSlow(label any, base vsched.Config, offsets []int, run func(cfg vsched.Config) Exec) {
+	wd := Watch(fmt.Sprintf("%s slow label=%v", c.ID, label), 120*time.Second)
+	x := run(base)
+	wd.Stop()
+	n := len(x.Sched.Threads())
+	if len(offsets) == 0 {
+		offsets = []int{0}
+	}
+	for t := 1; t < n; t++ {
+		for _, off := range offsets {
+			if c.Expired() {
+				c.Res.Exhaustive = false
+				return
+			}
+			cfg := base
+			cfg.Slow = map[int]bool{t: true}
+			cfg.SlowFrom = off
+			wd := Watch(fmt.Sprintf("%s slow thread %d from %d label=%v", c.ID, t, off, label), 120*time.Second)
+			y := run(cfg)
+			wd.Stop()
+			c.Res.Traces++
+			c.Res.Evaluations++
+			c.Res.Transitions += int64(y.Sched.Steps)
+			c.Class("slow-thread: " + y.Outcome)
+			c.Count("slow_thread_executions", 1)
+			if y.Viol != nil {
+				// confirm determinism: the same configuration must fail identically
+				ok := true
+				for k := 0; k < 3; k++ {
+					z := run(cfg)
+					if z.Viol == nil || z.Viol.Signature != y.Viol.Signature {
+						ok = false
+					}
+				}
+				if !ok {
+					c.EngineError("slow-thread violation %q of %v (thread %d from %d) not reproducible", y.Viol.Signature, label, t, off)
+					continue
+				}
+				c.Violate(y.Viol.Signature, y.Viol.What+fmt.Sprintf(" [thread %d demoted from step %d]", t, off), map[string]any{"label": label, "slow_thread": t, "slow_from": off, "case": y.Viol.Replay})
+			}
+		}
+	}
+}
+
+// CfgFromReplay rebuilds the scheduler configuration recorded with a
+// violation: a choice prefix (Explore) or a demoted thread (ExploreSlow).
+func CfgFromReplay(raw []byte) vsched.Config {
+	var w struct {
+		Prefix     []int `json:"prefix"`
+		SlowThread *int  `json:"slow_thread"`
+		SlowFrom   int   `json:"slow_from"`
+	}
+	_ = json.Unmarshal(raw, &w)
+	cfg := vsched.Config{Prefix: w.Prefix}
+	if w.SlowThread != nil {
+		cfg.Slow = map[int]bool{*w.SlowThread: true}
+		cfg.SlowFrom = w.SlowFrom
+	}
+	return cfg
 }
